@@ -271,4 +271,21 @@ theorem client_content_type (c : ClientForm) (rm : RespMeta) (sink : Sink) (ct :
 example : ClientForm.connectPost.responseContentType { codec := s "proto", «end» := some { err := some { code := 5, msg := .gen } } }
     = some (s "application/json") := by decide +kernel
 
+
+/-- **The HTTP status of the response head is the one the client's protocol prescribes**: 200 for every gRPC,
+    gRPC-Web and Connect streaming response whatever the outcome (the outcome travels in trailers or in the body);
+    for a unary Connect client 200 without an error, and with an error the status `httpStatusCodeFromRPC` gives
+    for its code (C04 proves that this is the published table). -/
+theorem client_http_status (c : ClientForm) (rm : RespMeta) (sink : Sink) :
+    ((c = .grpc ∨ c = .grpcWeb ∨ c = .connectStream) → (addResponseHeaders c rm sink).1 = some 200) ∧
+    ((c = .connectPost ∨ c = .connectGet) → rm.end.bind (·.err) = none → (addResponseHeaders c rm sink).1 = some 200) ∧
+    ((c = .connectPost ∨ c = .connectGet) → ∀ e, rm.end.bind (·.err) = some e →
+      (addResponseHeaders c rm sink).1 = httpStatusFromRPC e.code) := by
+  refine ⟨?_, ?_, ?_⟩
+  · rintro (rfl | rfl | rfl) <;> unfold addResponseHeaders <;> simp only
+    · split <;> rfl
+    · split <;> rfl
+  · rintro (rfl | rfl) h <;> unfold addResponseHeaders <;> simp only [h]
+  · rintro (rfl | rfl) e h <;> unfold addResponseHeaders <;> simp only [h]
+
 end Vanguard.C03
